@@ -17,6 +17,7 @@ import re
 import shutil
 import sys
 import traceback
+import urllib.parse
 import xml.etree.ElementTree as ET
 
 import numpy as np
@@ -273,6 +274,7 @@ def gen_spec(rng):
         if cand[0] * cand[1] >= need_px:
             break
     spec['max_output_pixels'] = cand if rng.random() < 0.8 else cand[0] * cand[1]
+    spec['bbox_srs'] = rng.random() < 0.3
     spec['tms'] = {'use_grid_names': rng.random() < 0.6}
     if rng.random() < 0.3:
         spec['tms']['origin'] = 'nw'
@@ -325,6 +327,14 @@ def build_conf(spec):
     conf['services'] = {'tms': dict(spec['tms']), 'kml': dict(spec['kml']), 'wmts': dict(spec['wmts']),
                         'wms': {'srs': srs_all, 'max_output_pixels': spec['max_output_pixels'],
                                 'image_formats': ['image/png', 'image/jpeg'], 'md': {'title': 'c16'}}}
+    if spec.get('bbox_srs'):
+        # explicit extent per SRS (the union of the grids in that SRS): requests overhanging it are rendered as a smaller sub-query
+        ext = {}
+        for gn, g in spec['grids'].items():
+            b = ext.get(g['srs'])
+            gb = g['bbox']
+            ext[g['srs']] = list(gb) if b is None else [min(b[0], gb[0]), min(b[1], gb[1]), max(b[2], gb[2]), max(b[3], gb[3])]
+        conf['services']['wms']['bbox_srs'] = [{'srs': k, 'bbox': v} for k, v in sorted(ext.items())]
     return conf
 
 
@@ -1009,6 +1019,16 @@ def make_plan(run, ctx, rng):
             if exp == 'below' and (size[0] > 20 * size[1] or size[1] > 20 * size[0]):
                 continue
             add('wms', gn, getmap(inner, size, rng.choice(['png', 'jpeg'])), exp, 'max_output_pixels', ac, size=list(size))
+            if exp == 'above' and ac in ('limit_plus', 'more', 'huge'):
+                # the same oversized picture for a bbox that lies mostly / wholly outside the grid (and outside the SRS extent
+                # when one is configured): the size asked for decides, not what is left after clipping
+                gb = g['bbox']
+                gw_, gh_ = gb[2] - gb[0], gb[3] - gb[1]
+                for nm, bb in (('mostly_outside', (gb[0] - 9 * gw_, gb[1] - 9 * gh_, gb[0] + 0.2 * gw_, gb[1] + 0.2 * gh_)),
+                               ('wholly_outside', (gb[2] + 0.5 * gw_, gb[1], gb[2] + 1.5 * gw_, gb[3]))):
+                    if g['srs'] == 'EPSG:4326' and not (-180 <= bb[0] and bb[2] <= 180 and -90 <= bb[1] and bb[3] <= 90):
+                        continue
+                    add('wms', gn, getmap(bb, size, 'png'), exp, 'max_output_pixels', ac + ':' + nm, size=list(size))
             if g['src'] == 'wms' and (exp == 'above' or ac == 'small'):
                 # the limit must not depend on the kind of layer or on vendor parameters: cascaded layer, mixed lists,
                 # WMS-C flag in several spellings, unknown vendor parameters
@@ -1145,6 +1165,24 @@ def execute(run, ctx, d, fail):
             if not (min(b[2], gb[2]) - max(b[0], gb[0]) > 0 and min(b[3], gb[3]) - max(b[1], gb[1]) > 0):
                 bad('upstream_getmap_outside_grid', 'upstream GetMap bbox %r does not overlap the grid bbox %r' % (b, gb))
                 return
+    if svc == 'wmsc' and ctx.spec.get('bbox_srs'):
+        # a WMS-C request is also an ordinary GetMap. When its bbox overhangs the extent configured for the SRS (bbox_srs),
+        # MapProxy renders the part inside the extent as an ordinary map request and the TILED flag plays no part: neither
+        # the WMS-C refusals nor the exact-tile content apply (the invariants above still do)
+        q_ = urllib.parse.parse_qs(urllib.parse.urlsplit(d['url']).query)
+        try:
+            bb_ = [float(v) for v in q_['BBOX'][0].split(',')]
+            srs_ = q_['SRS'][0]
+            ext_ = None
+            for gg in ctx.spec['grids'].values():
+                if gg['srs'] == srs_:
+                    gb_ = gg['bbox']
+                    ext_ = list(gb_) if ext_ is None else [min(ext_[0], gb_[0]), min(ext_[1], gb_[1]), max(ext_[2], gb_[2]), max(ext_[3], gb_[3])]
+            if ext_ is not None and not (bb_[0] >= ext_[0] and bb_[1] >= ext_[1] and bb_[2] <= ext_[2] and bb_[3] <= ext_[3]):
+                run.dc('wmsc_request_overhanging_the_srs_extent_is_served_as_plain_getmap')
+                return
+        except (KeyError, ValueError):
+            pass
     # ---- what this request had to look like -------------------------------------------------------------------------
     is_img = r.content_type.startswith('image/')
     is_err = r.code >= 400 or (b'ServiceException' in r.body[:600] and not is_img)
@@ -1227,6 +1265,13 @@ def execute(run, ctx, d, fail):
             return
         if list(img.size) != list(d['size']):
             bad('request_within_limits_wrong_size', 'image size %r, requested %r' % (img.size, d['size']))
+            return
+        if d.get('rect') and ctx.spec.get('bbox_srs') and not (
+                d['rect'][0] >= g['bbox'][0] - 1e-9 and d['rect'][1] >= g['bbox'][1] - 1e-9 and
+                d['rect'][2] <= g['bbox'][2] + 1e-9 and d['rect'][3] <= g['bbox'][3] + 1e-9):
+            # rendered as a sub-query of the part inside the configured SRS extent and pasted into the answer: where the
+            # content lands is C01's subject (sub-image placement), not judged here
+            run.dc('getmap_overhanging_the_srs_extent_content_not_judged')
             return
         if d.get('rect') and g['fmt'] == 'png':
             # the picture itself is C01's subject; here it only has to be the addressed part of the pyramid
